@@ -30,10 +30,14 @@ def run(ctx, facts):
     fl = flow(cip)
     vs = [v for v in validated_regions(cip) if bin_lock_region(v.region)]
     calls = [c for c in cip.calls if user_closure_call(c) and not cip.is_cleanup(c.b)]
+    # a nested closure that calls the remapping function but is not itself called by compute_if_present (handed to something else)
+    # escapes the region; one that is called here counts as the callback site through user_closure_call
+    invoked = {c.resolved for c in calls}
     for b in facts.closures_of(cip):
-        for c in b.calls:
-            if user_closure_call(c):
-                ctx.inst("A1", cip, "closure call outside the method body", c.span, False, "the remapping function is called from a nested closure")
+        ucs = [c for c in b.calls if user_closure_call(c) and not b.is_cleanup(c.b)]
+        if ucs and b.id not in invoked:
+            ctx.inst("A1", cip, "closure call outside the method body", ucs[0].span, False,
+                     "the remapping function is called from a nested closure that compute_if_present does not itself invoke")
     if not calls:
         ctx.fail_closed("A1: no call of the remapping function found in compute_if_present")
     muts = mutations(cip)
